@@ -13,8 +13,8 @@ git -C $ag status --short | head -5
 git -C $rp status --short | head -5
 
 echo "== fix commits on fix/$first"
-base=$(git -C /repo merge-base main fix/$first)
-commits=$(git -C /repo rev-list --reverse $base..fix/$first)
+# only commits whose patch is not yet on main (idempotent re-runs)
+commits=$(git -C /repo cherry main fix/$first | grep '^+' | cut -d' ' -f2)
 for c in $commits; do
   msg=$(git -C /repo log -1 --format=%s $c)
   echo "   $c $msg"
@@ -34,6 +34,7 @@ fi
 
 echo "== merge ag/$first"
 cd /verif
+git add -A; git commit -qm "wip before integrating $ids" >/dev/null 2>&1
 git merge --no-edit ag/$first >/tmp/merge-$first.log 2>&1 || { cat /tmp/merge-$first.log | tail -5; fail "merge conflict"; }
 echo "== lake build"
 (cd lean && lake build 2>&1 | grep -v '^trace\|^⚠\|^✔\|warning\|Hint\|apply\|Note\|^$\|^  ' | tail -15)
